@@ -33,7 +33,7 @@ RULE = (
     "table with at least one paired row and one unpaired row; distinct = (frame id, task, divisions, statuses present, #scenes, matched-FP present?)"
 )
 ASSUMPTIONS = ["ground-truth uuids are unique inside a frame", "yaw-only rotations"]
-DECIDING = ["analyzer.tables_judged", "analyzer.rows_checked", "analyzer.paired_rows", "C19.status.TP", "C19.status.FP", "C19.status.TN", "C19.status.FN", "C19.matched_fp_rows", "get_object_status.judged", "C19.error_arrays_checked", "C19.summaries_checked", "C19.selections_checked", "C19.map_frame_tables", "C19.analyses_with_selections", "C19.ego2map_checked", "C19.pickle_roundtrips", "analyzer.clears"]
+DECIDING = ["analyzer.tables_judged", "analyzer.rows_checked", "analyzer.paired_rows", "C19.status.TP", "C19.status.FP", "C19.status.TN", "C19.status.FN", "C19.matched_fp_rows", "get_object_status.judged", "C19.error_arrays_checked", "C19.summaries_checked", "C19.selections_checked", "C19.map_frame_tables", "C19.analyses_with_selections", "C19.ego2map_checked", "C19.pickle_roundtrips", "analyzer.clears", "C19.area_rows_checked"]
 JOBS = {"quick": 4, "thorough": 14}
 
 
@@ -164,6 +164,9 @@ def judge_table(ctx: Ctx, an: Any, scenes: List[List[Any]]) -> None:
     gt_rows = df.xs("ground_truth", level=1)
     est_rows = df.xs("estimation", level=1)
     paired = 0
+    ecd = an.config.evaluation_config_dict
+    grid = (float(ecd["max_x_position"]), float(ecd["max_y_position"])) if ("max_x_position" in ecd and "max_y_position" in ecd) else None
+    cells: Dict[Any, set] = {}
     for i, r in enumerate(rows):
         g, e = gt_rows.iloc[i], est_rows.iloc[i]
         ctx.count("analyzer.rows_checked")
@@ -177,9 +180,34 @@ def judge_table(ctx: Ctx, an: Any, scenes: List[List[Any]]) -> None:
             tolp = 1e-6 + 1e-9 * max(abs(pose[0]), abs(pose[1]))
             ctx.check(abs(float(row["x"]) - pose[0]) <= tolp and abs(float(row["y"]) - pose[1]) <= tolp and ang_close(float(row["yaw"]), pose[2]), "C19/row_position_or_yaw_not_ego_frame_value", dict(ri, side=side, row=[float(row["x"]), float(row["y"]), float(row["yaw"])], expected=list(pose)), tap)
             ctx.check(close(float(row["distance"]), math.hypot(pose[0], pose[1]), 1e-6, 1e-9), "C19/row_distance_not_ego_distance", dict(ri, side=side), tap)
+            # area column: the grid divides the rectangle max_x_position x max_y_position of the evaluation config around
+            # the ego into 1 / 3 (along x) / 9 (3 x 3) cells; judged without assuming how the cells are numbered
+            if grid is not None:
+                mx, my = grid
+                # a ground-truth / estimate pair is one table item and lies in ONE cell: that of its estimate
+                pose = r["est_pose"] if r["est"] is not None else pose
+                div = an.num_area_division
+                cuts_x = [mx] + ([mx / 3.0] if div in (3, 9) else [])
+                cuts_y = [my] + ([my / 3.0] if div == 9 else [])
+                if min([abs(abs(pose[0]) - c) for c in cuts_x] + [abs(abs(pose[1]) - c) for c in cuts_y]) < 1e-6:
+                    ctx.count("C19.area_skipped_boundary")
+                else:
+                    a_ = row["area"]
+                    has = not (a_ is None or (isinstance(a_, float) and math.isnan(a_)))
+                    inside = abs(pose[0]) < mx and abs(pose[1]) < my
+                    ctx.count("C19.area_rows_checked")
+                    ctx.check(has == inside, "C19/area_assigned_iff_inside_the_evaluation_range", dict(ri, side=side, ego_xy=[pose[0], pose[1]], max_x=mx, max_y=my, area=str(a_)), tap)
+                    if has and inside:
+                        band = lambda v, m: 0 if v > m / 3.0 else (1 if v > -m / 3.0 else 2)  # noqa: E731
+                        cell = () if div == 1 else ((band(pose[0], mx),) if div == 3 else (band(pose[0], mx), band(pose[1], my)))
+                        cells.setdefault(cell, set()).add(int(a_))
         if r["gt"] is not None and r["est"] is not None:
             paired += 1
     ctx.count("analyzer.paired_rows", paired)
+    if cells:
+        idxs = [i for v in cells.values() for i in v]
+        ok_cells = all(len(v) == 1 for v in cells.values()) and len(set(idxs)) == len(cells) and all(0 <= i < an.num_area_division for i in idxs)
+        ctx.check(ok_cells, "C19/area_index_not_one_per_grid_cell", dict(info, divisions=an.num_area_division, max_x=grid[0], max_y=grid[1], cells={str(k): sorted(v) for k, v in cells.items()}), tap)
     # ---- errors of paired rows and their summaries
     pairs = [r for r in rows if r["gt"] is not None and r["est"] is not None and r["status"] in ("TP", "FP", "TN")]
     exp_err = {
